@@ -4,7 +4,7 @@ from __future__ import annotations
 import ast
 import itertools
 
-from sa.loader import recv, norm, norm1, walk_shallow, own_nodes, call_name, is_super_call
+from sa.loader import recv, norm, norm1, walk_shallow, own_nodes, call_name, is_super_call, AnalysisError
 from sa.absval import Interp
 from sa.typestate import check_language
 from sa.tables import fold, Unfoldable
@@ -410,3 +410,89 @@ def run(ck):
           f"`{flagname}.OR(...)`: a forward jump of J seconds inflates it by about J/2", mt,
           upd[0].ast if upd else mt.node)
 
+    # ------------------------------------------------------------------ R07.8
+    R8 = ck.rule('R07.8', "the delay until the wake-up is the affine form 3600*dh + 60*dm + ds + du/1e6 "
+                 "of the field differences (wake-up minus now), plus one day exactly when now is in "
+                 "hour 23 and the wake-up in hour 0 (the table has an entry in every hour)", 'tables', 2)
+    st8 = [x for x in own_nodes(mt.node) if isinstance(x, ast.Assign) and len(x.targets) == 1 and
+           isinstance(x.targets[0], ast.Name) and sum(1 for a in ast.walk(x.value)
+                                                      if isinstance(a, ast.Attribute) and a.attr in
+                                                      ('hour', 'minute', 'second', 'microsecond')) >= 8]
+    ck.need(R8, len(st8) == 1, "_maintask: the delay computation from the hour/minute/second/microsecond "
+            "fields was not recognised")
+    dvar = st8[0].targets[0].id
+
+    def affine(e):
+        """-> {variable text: coefficient, '': constant}; AnalysisError outside +,-,*const,/const."""
+        if isinstance(e, ast.Constant) and isinstance(e.value, (int, float)) and not isinstance(e.value, bool):
+            return {'': float(e.value)}
+        if isinstance(e, ast.Name):
+            try:
+                v = fold(prog, mod, e)
+            except Unfoldable:
+                v = None
+            if isinstance(v, (int, float)) and not isinstance(v, bool):
+                return {'': float(v)}
+            return {e.id: 1.0}
+        if isinstance(e, ast.Attribute):
+            return {norm(e): 1.0}
+        if isinstance(e, ast.UnaryOp) and isinstance(e.op, ast.USub):
+            return {k: -v for k, v in affine(e.operand).items()}
+        if isinstance(e, ast.BinOp) and isinstance(e.op, (ast.Add, ast.Sub)):
+            a, b = affine(e.left), affine(e.right)
+            sg = 1.0 if isinstance(e.op, ast.Add) else -1.0
+            out = dict(a)
+            for k, v in b.items():
+                out[k] = out.get(k, 0.0) + sg * v
+            return out
+        if isinstance(e, ast.BinOp) and isinstance(e.op, (ast.Mult, ast.Div)):
+            a, b = affine(e.left), affine(e.right)
+            if set(b) <= {''} and (isinstance(e.op, ast.Mult) or b.get('', 0.0) != 0.0):
+                c = b.get('', 0.0)
+                return {k: (v * c if isinstance(e.op, ast.Mult) else v / c) for k, v in a.items()}
+            if set(a) <= {''} and isinstance(e.op, ast.Mult):
+                c = a.get('', 0.0)
+                return {k: v * c for k, v in b.items()}
+        raise AnalysisError(R8, f"delay computation is not affine in the time fields: `{norm(e)[:70]}`")
+    co = {k: v for k, v in affine(st8[0].value).items() if abs(v) > 1e-12}
+    vars_ = sorted({k.rsplit('.', 1)[0] for k in co if '.' in k})
+    okf = len(vars_) == 2
+    msg = f"coefficients {co}"
+    if okf:
+        # which of the two is the wake-up: the one with the positive hour coefficient
+        wk = [v for v in vars_ if co.get(f'{v}.hour', 0) > 0]
+        nw = [v for v in vars_ if co.get(f'{v}.hour', 0) < 0]
+        okf = len(wk) == 1 and len(nw) == 1
+        if okf:
+            want = {}
+            for fld, c in (('hour', 3600.0), ('minute', 60.0), ('second', 1.0), ('microsecond', 1e-6)):
+                want[f'{wk[0]}.{fld}'] = c
+                want[f'{nw[0]}.{fld}'] = -c
+            okf = set(co) == set(want) and all(abs(co[k] - want[k]) <= 1e-9 * max(1.0, abs(want[k])) for k in want)
+            # the wake-up operand is the table entry, the other one the clock reading
+            wdefs = [x for x in own_nodes(mt.node) if isinstance(x, ast.Assign) and norm(x.targets[0]) == wk[0]]
+            okf = okf and bool(wdefs) and all('timetable[' in norm(x.value) for x in wdefs)
+    ck.ob(R8, f"{mt.fid} :: {dvar} = wake-up - now in seconds", okf,
+          "3600*dh + 60*dm + ds + du/1e6 with d = (table entry) - (clock reading)" if okf else
+          f"the delay is not the difference wake-up minus now in seconds: {msg}", mt, st8[0])
+    g8 = ck.cfg(mt.fid, 'M0')
+    wraps = nodes_where(g8, lambda n: isinstance(n.ast, ast.AugAssign) and norm(n.ast.target) == dvar)
+    okw = False
+    if okf and len(wraps) == 1 and isinstance(wraps[0].ast.op, ast.Add):
+        try:
+            amount = fold(prog, mod, wraps[0].ast.value)
+        except Unfoldable:
+            amount = None
+        from sa.cfg import canon_fact as _cf8
+        facts = {_cf8(e_, p_) for e_, p_ in g8.guards(wraps[0])}
+        need = {_cf8(ast.parse(f'{nw[0]}.hour == 23', mode='eval').body, True),
+                _cf8(ast.parse(f'{wk[0]}.hour == 0', mode='eval').body, True)}
+        # the guards that dominate the wrap are exactly the two hour tests (plus loop conditions)
+        hour_facts = {f for f in facts if '.hour' in f[0] and ' and ' not in f[0] and ' or ' not in f[0]}
+        okw = amount == 86400 and need <= facts and hour_facts == need and \
+            all(g8.dominates(g8.node_of(st8[0])[0], w_) for w_ in wraps)
+    ck.ob(R8, f"{mt.fid} :: midnight wrap", okw,
+          "one day is added exactly when now is in hour 23 and the wake-up in hour 0" if okw else
+          "the midnight wrap of the delay is missing, conditional on something else, or not one day: "
+          "the wake-up after 23:xx would be scheduled a day early / late", mt,
+          wraps[0].ast if wraps else st8[0])
